@@ -808,7 +808,9 @@ def vc_bladedict_getitem(H):
                     name.valid = valid
                     blade = sym('stored-blade')
                     blades = sym('blades', on_contains=lambda i, me, item: cached and same(item, canon),
-                                 on_getitem=lambda i, me, idx: blade)
+                                 on_getitem=lambda i, me, idx: blade,
+                                 attrs={'get': sym('blades.get', callable_result=lambda i, m, a, k: blade if (cached and same(a[0], canon))
+                                                   else (a[1] if len(a) > 1 else k.get('default')))})
                     BIN = 6                                     # e23 in a 4-generator algebra: grade 2, not in ascending key position
                     made = []
                     alg = sym('algebra', attrs={'graded': graded,
@@ -852,6 +854,10 @@ def vc_bladedict_getitem(H):
                                        kind == 'fkv' and aa[0] is alg and tuple(aa[1]) == (BIN,) and list(aa[2]) == [1], meta={'got': repr((a, k))})
                     odd = ctx.decide(swaps.t % 2 == 1)
                     exp = Rec('unop', 'USub', b) if odd else b
+                    if not (r is b or (isinstance(r, Rec) and r.kind == 'unop')):
+                        # the result is neither the stored blade nor its negation as far as the models can see (reached through an
+                        # accessor the dictionary model does not have, built by a helper, ..): undecided
+                        raise OutOfSubset(f'BladeDict.__getitem__: result not recognisable as +- the stored blade: {r!r}'[:200])
                     ctx.oblige('post: blade by any spelling == (-1)^swaps * canonical blade', same(r, exp), meta={'got': repr(r), 'expected': repr(exp)})
                     return r
                 H.run_paths(fuc, f'valid={valid},cached={cached},graded={graded}', body)
